@@ -69,4 +69,314 @@ theorem cmpEq_applyAff (d : Decl) (a v : Val) (hn : normalVal d a) :
           rintro rfl
           simp [hs] at h
 
+/-! ### identifiers -/
+
+theorem findIdx?_congr' {α : Type} (p q : α → Bool) : ∀ (l : List α), (∀ x ∈ l, p x = q x) → l.findIdx? p = l.findIdx? q
+  | [], _ => rfl
+  | a :: t, h => by
+    rw [List.findIdx?_cons, List.findIdx?_cons, h a (by simp),
+      findIdx?_congr' p q t (fun x hx => h x (List.mem_cons_of_mem _ hx))]
+
+theorem find?_eq_none_of {α : Type} (p : α → Bool) (l : List α) (h : ∀ x ∈ l, p x = false) : l.find? p = none := by
+  rw [List.find?_eq_none]; intro x hx; simp [h x hx]
+
+theorem inj_of_nodup_map {α β : Type} (f : α → β) : ∀ (l : List α), (l.map f).Nodup → ∀ x ∈ l, ∀ y ∈ l, f x = f y → x = y
+  | [], _, x, hx, _, _, _ => by simp at hx
+  | a :: t, h, x, hx, y, hy, hxy => by
+    rw [List.map_cons, List.nodup_cons] at h
+    rcases List.mem_cons.1 hx with rfl | hx' <;> rcases List.mem_cons.1 hy with rfl | hy'
+    · rfl
+    · exact absurd (hxy ▸ List.mem_map_of_mem hy') h.1
+    · exact absurd (hxy ▸ List.mem_map_of_mem hx') h.1
+    · exact inj_of_nodup_map f t h.2 x hx' y hy' hxy
+
+theorem stdNames_facts :
+    (StdCol.all.find? (fun c => ciEq c.pyName rowIDName) = none) ∧
+    (∀ c : StdCol, StdCol.all.find? (fun c' => ciEq c'.pyName c.pyName) = some c) ∧
+    (∀ c : StdCol, StdCol.all.find? (fun c' => c'.pyName = c.pyName) = some c) ∧
+    (∀ c : StdCol, c.pyName ≠ rowIDName) ∧
+    (rowidAliases.contains (Py.lower rowIDName) = true) := by
+  refine ⟨by decide, ?_, ?_, ?_, by decide⟩ <;> intro c <;> cases c <;> decide
+
+theorem mem_stdNames (c : StdCol) : c.pyName ∈ StdCol.all.map StdCol.pyName := by
+  cases c <;> decide
+
+/-- on a well-formed database SQLite's (case-insensitive) resolution of a listed attribute name is the exact one -/
+theorem sqlCol_eq_resolve (db : Db) (h : WF db) (k : Py.Str) (hk : k ∈ db.colnames) :
+    sqlCol db k = resolve db.extraNames k := by
+  obtain ⟨f1, f2, f3, f4, f5⟩ := stdNames_facts
+  have hnd := h.names
+  have hinj := inj_of_nodup_map Py.lower db.colnames hnd
+  have hrow : rowIDName ∈ db.colnames := by simp [Db.colnames, Tbl.colnames]
+  have hstd : ∀ c : StdCol, c.pyName ∈ db.colnames := by
+    intro c; simp only [Db.colnames, Tbl.colnames, List.mem_cons, List.mem_append]
+    exact Or.inr (Or.inl (mem_stdNames c))
+  have hext : ∀ n ∈ db.extraNames, n ∈ db.colnames := by
+    intro n hn; simp only [Db.colnames, Tbl.colnames, List.mem_cons, List.mem_append]
+    exact Or.inr (Or.inr hn)
+  -- case-insensitive equality with a listed name is equality
+  have hci : ∀ n ∈ db.colnames, ciEq n k = decide (n = k) := by
+    intro n hn
+    by_cases hnk : n = k
+    · subst hnk; simp [ciEq]
+    · have : Py.lower n ≠ Py.lower k := fun hl => hnk (hinj n hn k hk hl)
+      simp [ciEq, this, hnk]
+  simp only [Db.colnames, Tbl.colnames, List.mem_cons, List.mem_append, List.mem_map] at hk
+  rcases hk with rfl | ⟨c, _, rfl⟩ | hk
+  · -- rowID
+    have hx : db.extraNames.findIdx? (fun n => ciEq n rowIDName) = none := by
+      rw [List.findIdx?_eq_none_iff]
+      intro n hn
+      rw [hci n (hext n hn)]
+      simp only [decide_eq_false_iff_not]
+      rintro rfl
+      have : db.colnames = rowIDName :: (StdCol.all.map StdCol.pyName ++ db.extraNames) := rfl
+      rw [this, List.map_cons, List.nodup_cons] at hnd
+      exact hnd.1 (List.mem_map_of_mem (List.mem_append_right _ hn))
+    have f5' : Py.lower rowIDName ∈ rowidAliases := by decide
+    simp [sqlCol, resolve, f1, hx, f5']
+  · -- a standard attribute
+    simp [sqlCol, resolve, f2, f3, f4]
+  · -- an added column
+    have hne : k ≠ rowIDName := by
+      rintro rfl
+      have : db.colnames = rowIDName :: (StdCol.all.map StdCol.pyName ++ db.extraNames) := rfl
+      rw [this, List.map_cons, List.nodup_cons] at hnd
+      exact hnd.1 (List.mem_map_of_mem (List.mem_append_right _ hk))
+    have hnostd : ∀ c : StdCol, c.pyName ≠ k := by
+      rintro c rfl
+      have : db.colnames = rowIDName :: (StdCol.all.map StdCol.pyName ++ db.extraNames) := rfl
+      rw [this, List.map_cons, List.nodup_cons, List.map_append] at hnd
+      have := (List.nodup_append.1 hnd.2).2.2 _ (List.mem_map_of_mem (mem_stdNames c)) _ (List.mem_map_of_mem hk)
+      exact this rfl
+    have h1 : StdCol.all.find? (fun c => ciEq c.pyName k) = none :=
+      find?_eq_none_of _ _ (fun c _ => by rw [hci _ (hstd c)]; simp [hnostd c])
+    have h2 : StdCol.all.find? (fun c => c.pyName = k) = none :=
+      find?_eq_none_of _ _ (fun c _ => by simp [hnostd c])
+    have h3 : db.extraNames.findIdx? (fun n => ciEq n k) = db.extraNames.idxOf? k := by
+      unfold List.idxOf?
+      apply findIdx?_congr'
+      intro n hn
+      rw [hci n (hext n hn)]
+      exact (beq_eq_decide n k).symm
+    have h4 : ∃ i, db.extraNames.idxOf? k = some i := by
+      cases hh : db.extraNames.idxOf? k with
+      | some i => exact ⟨i, rfl⟩
+      | none =>
+        unfold List.idxOf? at hh
+        rw [List.findIdx?_eq_none_iff] at hh
+        have := hh k hk
+        simp at this
+    obtain ⟨i, hi⟩ := h4
+    simp [sqlCol, resolve, hne, h1, h2, h3, hi]
+
+theorem resolve_of_mem (names : List Py.Str) (k : Py.Str) (hk : k ∈ Tbl.colnames names) :
+    ∃ c, resolve names k = some c := by
+  obtain ⟨f1, f2, f3, f4, f5⟩ := stdNames_facts
+  unfold resolve
+  by_cases h0 : k = rowIDName
+  · exact ⟨.rowID, by simp [h0]⟩
+  · simp only [h0, if_false]
+    cases hf : StdCol.all.find? (fun c => c.pyName = k) with
+    | some c => exact ⟨.std c, rfl⟩
+    | none =>
+      simp only [Tbl.colnames, List.mem_cons, List.mem_append, List.mem_map] at hk
+      rcases hk with rfl | ⟨c, _, rfl⟩ | hk
+      · exact absurd rfl h0
+      · rw [f3 c] at hf; cases hf
+      · cases hh : names.idxOf? k with
+        | some i => exact ⟨.extra i, by simp⟩
+        | none =>
+          unfold List.idxOf? at hh
+          rw [List.findIdx?_eq_none_iff] at hh
+          have := hh k hk
+          simp at this
+
+theorem resolve_eq_rowID_iff (names : List Py.Str) (k : Py.Str) : resolve names k = some .rowID ↔ k = rowIDName := by
+  unfold resolve
+  by_cases h0 : k = rowIDName
+  · simp [h0]
+  · simp only [h0, if_false, iff_false]
+    cases StdCol.all.find? (fun c => c.pyName = k) with
+    | some c => simp
+    | none => cases names.idxOf? k <;> simp
+
+/-! ### conditions -/
+
+/-- every keyword names a listed attribute (after `no_`) -/
+def KeysOK (db : Db) (kw : List Kw) : Prop := ∀ k ∈ kw, (stripNo k.key).2 ∈ db.colnames
+
+/-- rowID conditions list integers -/
+def RowIDInts (kw : List Kw) : Prop :=
+  ∀ k ∈ kw, (stripNo k.key).2 = rowIDName → ∀ v ∈ k.arg.vals, ∃ i, v = Val.int i
+
+def plus1 : Val → Val
+  | .int i => .int (i + 1)
+  | v => v
+
+/-- the SQL condition the loop of `get` builds for a keyword, against the property's condition -/
+def CondRel (db : Db) (k : Kw) (sc : SqlCond) (c : Spec.Cond) : Prop :=
+  resolve db.extraNames (stripNo k.key).2 = some c.col ∧ c.neg = (stripNo k.key).1 ∧ c.vals = k.arg.vals ∧
+  sc.col = c.col ∧ sc.neg = c.neg ∧
+  sc.vals = (if (stripNo k.key).2 = rowIDName then k.arg.vals.map plus1 else k.arg.vals)
+
+theorem stripNo_eq_splitNo (k : Py.Str) : stripNo k = Spec.splitNo k := rfl
+
+theorem mapM_plus1 : ∀ (vs : List Val), (∀ v ∈ vs, ∃ i, v = Val.int i) → vs.mapM pyIntPlus1 = .ok (vs.map plus1) := by
+  intro vs h
+  apply except_mapM_ok
+  intro v hv
+  obtain ⟨i, rfl⟩ := h v hv
+  rfl
+
+/-- one turn of the loop on a keyword that is not over-long -/
+theorem scan_step (db : Db) (h : WF db) (k : Kw) (hk : (stripNo k.key).2 ∈ db.colnames)
+    (hr : (stripNo k.key).2 = rowIDName → ∀ v ∈ k.arg.vals, ∃ i, v = Val.int i) :
+    ∃ sc c, scanVals (stripNo k.key).2 k.arg.vals = .ok sc.vals ∧
+      mkCond db (stripNo k.key).2 (stripNo k.key).1 sc.vals = .ok sc ∧
+      Spec.condOf db.extraNames k = some c ∧ CondRel db k sc c := by
+  obtain ⟨col, hcol⟩ := resolve_of_mem db.extraNames _ hk
+  have hsql := sqlCol_eq_resolve db h _ hk
+  rw [hcol] at hsql
+  let vals' := if (stripNo k.key).2 = rowIDName then k.arg.vals.map plus1 else k.arg.vals
+  refine ⟨⟨col, (stripNo k.key).1, vals'⟩, ⟨col, (stripNo k.key).1, k.arg.vals⟩, ?_, ?_, ?_, ?_⟩
+  · unfold scanVals
+    by_cases h0 : (stripNo k.key).2 = rowIDName
+    · simp only [h0, if_true, vals']; exact mapM_plus1 _ (hr h0)
+    · simp [h0, vals']
+  · simp [mkCond, hsql]
+  · simp only [Spec.condOf, ← stripNo_eq_splitNo, hcol, Option.map_some]
+  · exact ⟨hcol, rfl, rfl, rfl, rfl, rfl⟩
+
+def plainCount (kw : List Kw) : Nat := (kw.map (fun k => k.arg.vals.length)).sum
+
+/-- the loop over keywords none of which is over-long -/
+theorem scan_short (db : Db) (h : WF db) : ∀ (kw : List Kw), KeysOK db kw → RowIDInts kw →
+    (∀ k ∈ kw, isLong k.arg = false) →
+    ∃ conds q, scan db kw = .ok (.conds conds (plainCount kw)) ∧ kw.mapM (Spec.condOf db.extraNames) = some q ∧
+      List.Forall₂ (fun k (sq : SqlCond × Spec.Cond) => CondRel db k sq.1 sq.2) kw (conds.zip q) ∧
+      conds.length = kw.length ∧ q.length = kw.length
+  | [], _, _, _ => ⟨[], [], rfl, rfl, List.Forall₂.nil, rfl, rfl⟩
+  | k :: rest, hk, hr, hs => by
+    obtain ⟨sc, c, h1, h2, h3, h4⟩ := scan_step db h k (hk k (by simp)) (hr k (by simp))
+    obtain ⟨conds, q, i1, i2, i3, i4, i5⟩ := scan_short db h rest (fun x hx => hk x (List.mem_cons_of_mem _ hx))
+      (fun x hx => hr x (List.mem_cons_of_mem _ hx)) (fun x hx => hs x (List.mem_cons_of_mem _ hx))
+    refine ⟨sc :: conds, c :: q, ?_, ?_, ?_, by simp [i4], by simp [i5]⟩
+    · simp only [scan, hs k (by simp), h1, h2, i1, plainCount, List.map_cons, List.sum_cons]
+      rfl
+    · rw [List.mapM_cons, h3, i2]; rfl
+    · exact List.Forall₂.cons h4 i3
+
+/-- the loop stops at the first over-long list -/
+theorem scan_long (db : Db) (h : WF db) : ∀ (l1 : List Kw) (k : Kw) (l2 : List Kw), KeysOK db l1 → RowIDInts l1 →
+    (∀ x ∈ l1, isLong x.arg = false) → isLong k.arg = true →
+    scan db (l1 ++ k :: l2) = .ok (.long l1.length k.key (stripNo k.key).1 k.arg.vals)
+  | [], k, l2, _, _, _, hl => by simp [scan, hl]
+  | x :: l1, k, l2, hk, hr, hs, hl => by
+    obtain ⟨sc, c, h1, h2, h3, h4⟩ := scan_step db h x (hk x (by simp)) (hr x (by simp))
+    have ih := scan_long db h l1 k l2 (fun y hy => hk y (List.mem_cons_of_mem _ hy))
+      (fun y hy => hr y (List.mem_cons_of_mem _ hy)) (fun y hy => hs y (List.mem_cons_of_mem _ hy)) hl
+    simp only [List.cons_append, scan, hs x (by simp), h1, h2, ih, List.length_cons]
+    rfl
+
+/-! ### WHERE = "every condition holds" -/
+
+/-- the rows of a well-formed database -/
+def RowOK (db : Db) (r : Row) : Prop :=
+  r.extra.length = db.extra.length ∧
+    ∀ k, k < db.extra.length → normalVal (db.extra.getD k ⟨[], .numeric⟩).decl (r.extra.getD k (.int 0))
+
+theorem WF.rowOK {db : Db} (h : WF db) {t : Tab} (ht : t ∈ db.tabs) {r : Row} (hr : r ∈ t.rows) : RowOK db r :=
+  h.cells t ht r hr
+
+theorem getD_default {α : Type} (l : List α) (k : Nat) (d : α) (h : l.length ≤ k) : l.getD k d = d := by
+  rw [List.getD_eq_getElem?_getD, List.getElem?_eq_none h]; rfl
+
+theorem normal_cell (db : Db) (r : Row) (hr : RowOK db r) (p : Nat) (c : Col) :
+    normalVal (affOf db c) (cell c p r) := by
+  cases c with
+  | rowID => simp [affOf, cell, normalVal]
+  | std s => exact normal_std r s
+  | extra k =>
+    by_cases hk : k < db.extra.length
+    · exact hr.2 k hk
+    · have h1 : db.extra.getD k ⟨[], .numeric⟩ = ⟨[], .numeric⟩ :=
+        getD_default _ _ _ (Nat.le_of_not_lt hk)
+      have h2 : r.extra.getD k (.int 0) = .int 0 :=
+        getD_default _ _ _ (by rw [hr.1]; exact Nat.le_of_not_lt hk)
+      show normalVal (db.extra.getD k ⟨[], .numeric⟩).decl (r.extra.getD k (.int 0))
+      rw [h1, h2]; simp [normalVal]
+
+theorem aff_numeric (db : Db) (c : Col) : (affOf db c != Decl.text) = Spec.isNumeric db.extra c := by
+  cases c with
+  | rowID => rfl
+  | std s => simp only [affOf, affOfKind, Spec.isNumeric]; exact decl_ne_text_iff s.kind
+  | extra k => rfl
+
+theorem any_map_congr {α β : Type} (f : α → β) (p : β → Bool) (q : α → Bool) :
+    ∀ (l : List α), (∀ x ∈ l, p (f x) = q x) → (l.map f).any p = l.any q
+  | [], _ => rfl
+  | a :: t, h => by
+    simp only [List.map_cons, List.any_cons, h a (by simp),
+      any_map_congr f p q t (fun x hx => h x (List.mem_cons_of_mem _ hx))]
+
+theorem holds_rel (db : Db) (r : Row) (hr : RowOK db r) (p : Nat) (k : Kw) (sc : SqlCond) (c : Spec.Cond)
+    (hrel : CondRel db k sc c)
+    (hint : (stripNo k.key).2 = rowIDName → ∀ v ∈ k.arg.vals, ∃ i, v = Val.int i) :
+    sc.holds (sc.bound db) (r, p) = c.holds db.extra p r := by
+  obtain ⟨hres, hneg, hvals, hcol, hneg', hsv⟩ := hrel
+  unfold SqlCond.holds SqlCond.bound Spec.Cond.holds
+  rw [hneg']
+  dsimp only
+  refine congrArg (fun b => b != c.neg) ?_
+  rw [hsv, hcol, hvals]
+  by_cases h0 : (stripNo k.key).2 = rowIDName
+  · have hc : c.col = .rowID := by
+      have := (resolve_eq_rowID_iff db.extraNames _).2 h0
+      rw [hres] at this; exact Option.some.inj this
+    simp only [h0, if_true, hc, List.map_map]
+    apply any_map_congr (applyAff (affOf db Col.rowID) ∘ plus1)
+    intro v hv
+    obtain ⟨i, rfl⟩ := hint h0 v hv
+    simp [plus1, affOf, applyAff, cmpEq, sqlCell, cell, Spec.isNumeric, Spec.valMatches]
+  · have hc : c.col ≠ .rowID := by
+      intro hc
+      apply h0
+      rw [← resolve_eq_rowID_iff db.extraNames, hres, hc]
+    simp only [h0, if_false]
+    apply any_map_congr
+    intro v hv
+    have hcell : sqlCell c.col p r = cell c.col p r := by
+      cases hcc : c.col with
+      | rowID => exact absurd hcc hc
+      | std s => rfl
+      | extra k => rfl
+    simp only [hcell]
+    rw [cmpEq_applyAff _ _ _ (normal_cell db r hr p c.col), aff_numeric]
+
+/-- WHERE clause of the built conditions = "every keyword condition holds" -/
+theorem where_eq_sat (db : Db) (r : Row) (hr : RowOK db r) (p : Nat) :
+    ∀ (kw : List Kw) (conds : List SqlCond) (q : List Spec.Cond), RowIDInts kw →
+      List.Forall₂ (fun k (sq : SqlCond × Spec.Cond) => CondRel db k sq.1 sq.2) kw (conds.zip q) →
+      conds.length = kw.length → q.length = kw.length →
+      sqlWhere db conds (r, p) = Spec.sat db.extra q (r, p) := by
+  intro kw conds q hint hrel h1 h2
+  unfold sqlWhere Spec.sat
+  simp only [List.all_map]
+  induction kw generalizing conds q with
+  | nil =>
+    cases conds <;> cases q <;> simp_all
+  | cons k rest ih =>
+    cases conds with
+    | nil => simp at h1
+    | cons sc conds =>
+      cases q with
+      | nil => simp at h2
+      | cons c q =>
+        simp only [List.zip_cons_cons, List.forall₂_cons] at hrel
+        simp only [List.all_cons, Function.comp]
+        rw [holds_rel db r hr p k sc c hrel.1 (hint k (by simp))]
+        congr 1
+        exact ih conds q (fun x hx => hint x (List.mem_cons_of_mem _ hx)) hrel.2 (by simpa using h1) (by simpa using h2)
+
 end TableProofs
